@@ -1,7 +1,10 @@
 From Coq Require Import Extraction ExtrOcamlBasic ZArith NArith.
-From GmVerif Require Import Pki.Cms.
+From GmVerif Require Import Pki.Cms Pki.X509Codec Pki.CmsCodec.
 Extraction Language OCaml.
 Extraction "../ocaml/gen/ModelC16.ml"
   Z.of_N N.of_nat
   cms_sign cms_verify cms_envelop cms_deenvelop cms_encrypt cms_decrypt
-  cms_sign_and_envelop cms_deenvelop_and_verify mk_fixes mk_signer mk_cert mk_keyobj mk_signed.
+  cms_sign_and_envelop cms_deenvelop_and_verify mk_fixes mk_signer mk_cert mk_keyobj mk_signed
+  ias_to_der signer_info_to_der recipient_info_to_der digest_algors_to_der content_info_to_der enced_content_info_to_der
+  signed_data_to_der enveloped_data_to_der signed_and_enveloped_data_to_der struct_from_der opt_value integer_content
+  ias_layout signer_info_layout recipient_info_layout signed_data_layout enveloped_data_layout signed_and_enveloped_data_layout.
